@@ -971,7 +971,7 @@ pub fn run(opts: &Opts) -> i32 {
     let mut ev = Evidence::new(
         PROP,
         "fault_enumeration",
-        "worlds = repository corpus + generated multi-package projects (a fifth ill-typed), each with a genuine artifact set built beforehand; operations = `run`, and `check`/`build` of every package, and `link`; quick: per operation a fault-free run plus N seeded fault plans of 1-3 faults (errno on the n-th open/read/write/opendir/readdir/stat/mkdir, short reads/writes, chunked I/O, ENOSPC mid-file, stat lies, crash at syscall k, and stored-byte faults: bit flip, truncation, garbage, vanished file, directory instead of file, replaced or swapped file, single-field JSON corruption, foreign-version artifact); thorough: additionally every single-syscall fault position x every action of the catalogue and every crash point of every operation (exhaustive for that sub-space). oracle: no panic / abort / hang, a failure carries a message, a rejection carries >= 1 error diagnostic with stage and message, positions lie inside a source text, a success is never reported after a failed write to the store, and under transient faults alone a success wrote exactly what the fault-free run writes; distinct = distinct (project, operation, fault plan); all are non-trivial (at least one injected fault) except the fault-free baselines",
+        "worlds = repository corpus + generated multi-package projects (a fifth ill-typed, a fifth with an illegal configuration out of 44 kinds or an odd layout: one name defined twice in one or two files), each with a genuine artifact set built beforehand; operations = `run`, and `check`/`build` of every package, and `link`; quick: per operation a fault-free run plus N seeded fault plans of 1-3 faults (errno on the n-th open/read/write/opendir/readdir/stat/mkdir, short reads/writes, chunked I/O, ENOSPC mid-file, stat lies, crash at syscall k, and stored-byte faults: bit flip, truncation, garbage, vanished file, directory instead of file, replaced or swapped file, single-field JSON corruption, foreign-version artifact; exact-offset truncation / bit flip; symbolic links among the sources; every character position of a header field of an opened artifact replaced by a multi-byte character; deep nesting wrapped around a node, appended as an extra field, or pumped from a recursive node of a genuine artifact beyond the reader's limit); thorough: additionally every single-syscall fault position x every action of the catalogue and every crash point of every operation (exhaustive for that sub-space). oracle: no panic / abort / hang, a failure carries a message, a rejection carries >= 1 error diagnostic with stage and message, positions lie inside a source text, a success is never reported after a failed write to the store, and under transient faults alone a success wrote exactly what the fault-free run writes; distinct = distinct (project, operation, fault plan); all are non-trivial (at least one injected fault) except the fault-free baselines",
     );
     ev.components_real = harness::REAL_COMPONENTS.iter().map(|s| s.to_string()).collect();
     ev.components_stub = harness::STUB_COMPONENTS.iter().map(|s| s.to_string()).collect();
